@@ -620,6 +620,78 @@ Qed.
 Corollary canonical_roundtrip t : (exists d, printable d /\ t = di_as_bytes d) -> di_as_bytes (di_from_bytes t) = t.
 Proof. intros (d & P & ->). rewrite from_as_bytes; auto. Qed.
 
+(* ---------- assembling a Distinfo through the API: Distinfo::insert ---------- *)
+Lemma find_none_all {A} (f : A -> bool) l : (forall x, In x l -> f x = false) -> List.find f l = None.
+Proof. induction l as [|x l IH]; intros H; cbn [List.find]; auto. rewrite (H x (or_introl eq_refl)). apply IH. intros y Hy. apply H. right. auto. Qed.
+Definition class_list (d : distinfo) (k : etype) : list dentry := match k with Distfile => dists d | Patchfile => patches d end.
+Lemma insert_class_list d e k : class_list (di_insert d e) k =
+  if class_eqb (classify (ename e)) k then upd_entry (ename e) (fun _ => e) e (class_list d k) else class_list d k.
+Proof. unfold di_insert, on_map, class_list. destruct (classify (ename e)), k; reflexivity. Qed.
+Lemma get_upd_entry e m p :
+  get_entry (upd_entry (ename e) (fun _ => e) e m) p = if path_eqb (ename e) p then Some e else get_entry m p.
+Proof.
+  unfold get_entry. induction m as [|x m IH]; cbn [upd_entry List.find].
+  - destruct (path_eqb (ename e) p); reflexivity.
+  - destruct (path_eqb (ename x) (ename e)) eqn:Hx.
+    + cbn [List.find]. destruct (path_eqb (ename e) p) eqn:He; [reflexivity|].
+      assert (path_eqb (ename x) p = false) as ->; [|reflexivity].
+      destruct (path_eqb (ename x) p) eqn:Q; [|reflexivity]. rewrite path_eqb_sym in Hx.
+      assert (path_eqb (ename e) p = true) by (eapply path_eqb_trans; eauto). congruence.
+    + cbn [List.find]. destruct (path_eqb (ename x) p) eqn:Hxp; [|apply IH].
+      destruct (path_eqb (ename e) p) eqn:He; [|reflexivity].
+      rewrite path_eqb_sym in He. assert (path_eqb (ename x) (ename e) = true) by (eapply path_eqb_trans; eauto). congruence.
+Qed.
+(* after insert, looking the entry up under its own name finds it; other names see what was there before *)
+Theorem insert_lookup d e p :
+  get_entry (class_list (di_insert d e) (classify (ename e))) p =
+  if path_eqb (ename e) p then Some e else get_entry (class_list d (classify (ename e))) p.
+Proof.
+  rewrite insert_class_list. replace (class_eqb (classify (ename e)) (classify (ename e))) with true by (symmetry; apply class_eqb_eq; reflexivity).
+  apply get_upd_entry.
+Qed.
+Lemma upd_entry_names key e m : path_eqb (ename e) key = true -> distinct m -> distinct (upd_entry key (fun _ => e) e m).
+Proof.
+  intros He. induction m as [|x m IH]; intros D; cbn [upd_entry].
+  - split; [intros ? []|exact I].
+  - destruct D as [D1 D2]. destruct (path_eqb (ename x) key) eqn:Hx.
+    + split; auto. intros y Hy. specialize (D1 y Hy).
+      destruct (path_eqb (ename e) (ename y)) eqn:Q; [|reflexivity].
+      assert (path_eqb (ename x) (ename e) = true) as A by (rewrite path_eqb_sym in He; eapply path_eqb_trans; eauto).
+      assert (path_eqb (ename x) (ename y) = true) by (eapply path_eqb_trans; eauto). congruence.
+    + split; [|apply IH; auto]. intros y Hy.
+      assert (In y m \/ y = e) as [Hin| ->].
+      { clear -Hy. induction m as [|z m IHm]; cbn [upd_entry] in Hy.
+        - destruct Hy as [<-|[]]; auto.
+        - destruct (path_eqb (ename z) key).
+          + destruct Hy as [<-|Hy]; [right; reflexivity|left; right; auto].
+          + destruct Hy as [<-|Hy]; [left; left; reflexivity|]. destruct (IHm Hy); [left; right; auto|right; auto]. }
+      * apply D1; auto.
+      * destruct (path_eqb (ename x) (ename e)) eqn:Q; [|reflexivity].
+        assert (path_eqb (ename x) key = true) by (eapply path_eqb_trans; eauto). congruence.
+Qed.
+(* inserting well-formed entries keeps the Distinfo printable: so whatever is assembled from the empty Distinfo through
+   set_rcsid and insert round-trips through as_bytes / from_bytes (from_as_bytes) *)
+Theorem insert_printable d e : printable d ->
+  (classify (ename e) = Distfile -> ok_dist e) -> (classify (ename e) = Patchfile -> ok_patch e) -> printable (di_insert d e).
+Proof.
+  intros (R & FD & FP & DD & DP) HD HP. unfold printable, di_insert, on_map.
+  assert (forall m ok, Forall ok m -> ok e -> Forall ok (upd_entry (ename e) (fun _ => e) e m)) as FU.
+  { intros m ok F Oe. induction F as [|x m Hx F IH]; cbn [upd_entry]; [constructor; auto|].
+    destruct (path_eqb (ename x) (ename e)); constructor; auto. }
+  destruct (classify (ename e)) eqn:C; cbn [rcsid dists patches].
+  - repeat split; auto. apply upd_entry_names; auto. apply path_eqb_refl.
+  - repeat split; auto. apply upd_entry_names; auto. apply path_eqb_refl.
+Qed.
+Definition di_build (r : option str) (es : list dentry) : distinfo := fold_left di_insert es (mkdi r [] []).
+Theorem build_roundtrip r es : ok_rcs r -> Forall (fun e => (classify (ename e) = Distfile -> ok_dist e) /\ (classify (ename e) = Patchfile -> ok_patch e)) es ->
+  di_from_bytes (di_as_bytes (di_build r es)) = di_build r es.
+Proof.
+  intros Hr F. apply from_as_bytes. unfold di_build.
+  assert (printable (mkdi r [] [])) as P0 by (repeat split; auto; constructor).
+  revert P0. generalize (mkdi r [] []). induction F as [|e es' [H1 H2] F' IHF]; intros d P; cbn [fold_left]; auto.
+  apply IHF. apply insert_printable; auto.
+Qed.
+
 (* ================= lookup and verification (C12) ================= *)
 (* the paths find_entry tries, in order *)
 Fixpoint walk_paths (cs : list comp) (file : str) : list str :=
